@@ -69,7 +69,7 @@ def gen_case(rng, enum=None, small=False):
     w = {"kind": rng.choice(["uniform", "random", "random", "skewed", "ties"]), "seed": rng.randrange(10 ** 6)}
     if g["kind"] == "cfg":
         g["rule_order"] = rng.choice(["asis", "asis", "reversed", "shuffled"])
-        if enum != "bs" and rng.random() < 0.2:
+        if enum != "bs" and rng.random() < (0.45 if enum == "cd" else 0.12):
             # the cost spread sits on the deepest non-terminals only, rule table not stored parents-first
             w["kind"] = "deep_spread"
             g["rule_order"] = rng.choice(["reversed", "shuffled"])
@@ -83,6 +83,34 @@ def gen_case(rng, enum=None, small=False):
         params["k"], params["precision"] = rng.choice([(10, 1e-5), (2, 1e-2), (40, 1e-3), (5, 1e-4)])
     return {"kind": enum + "/" + g["kind"] + "/" + w["kind"], "grammar": g, "weights": w, "enum": enum,
             "params": params, "limit": 4000}
+
+
+def gen_deep_case(rng, enum):
+    """A depth-4 grammar over one base type, small enough to be enumerated in full,
+    stored deepest non-terminals first (or shuffled), uniform except for a
+    1 : 10^3 : 10^6 spread on the deepest non-terminals: a bound computed on the
+    deepest level has to travel through three levels to reach the start symbol."""
+    t = [0, 10]
+    while True:
+        nl, nu, nb, nv = rng.choice([1, 2, 2, 3]), rng.choice([0, 1, 1, 2]), rng.choice([0, 1, 1]), rng.choice([0, 0, 1])
+        if nu + nb == 0 or nl + nv < 2:
+            continue
+        f = nl + nv
+        for _ in range(3):
+            f = nl + nv + nu * f + nb * f * f
+        if 20 <= f <= 1400:
+            break
+    prims = [[100 + i, t] for i in range(nl)] + [[103 + i, [1, t, t]] for i in range(nu)] + [[105 + i, [1, t, [1, t, t]]] for i in range(nb)]
+    rng.shuffle(prims)
+    g = {"kind": "cfg", "prims": prims, "forbidden": [], "request": [1, t, t] if nv else t, "n_gram": 2, "const_types": [],
+         "max_depth": 4, "min_var": 0, "rule_order": rng.choice(["reversed", "reversed", "shuffled"])}
+    w = {"kind": "deep_spread", "seed": rng.randrange(10 ** 6)}
+    params = {}
+    if enum == "hs_bucket":
+        params["bucket_size"] = rng.choice([2, 3, 5, 8])
+    if enum == "cd":
+        params["k"], params["precision"] = rng.choice([(10, 1e-5), (4, 1e-5), (40, 1e-3), (5, 1e-4)])
+    return {"kind": enum + "/cfg-depth4/deep_spread", "grammar": g, "weights": w, "enum": enum, "params": params, "limit": 4000}
 
 
 def gen_inf_case(rng, enum):
